@@ -177,7 +177,14 @@ Always_Crash(o) == IF o.crashed THEN {<<p, "process-crashed", 0>> : p \in CrashP
 \* C06: a cancellation (or the end of the connection) that should have reached a handler never did
 Always_C06b(o) == {<<"C06", "cancellation-never-reached-the-handler", t>> : t \in o.ctxMissing}
 
-Always(o) == Always_Crash(o) \cup Always_C06b(o) \cup Always_C05(o) \cup Always_C05b(o) \cup Always_C02(o) \cup Always_C04(o) \cup Always_C06(o) \cup Always_C07(o) \cup Always_C08(o) \cup Always_C14(o) \cup Always_C18(o)
+\* C13: the caller of a panicking handler gets an error that mentions the panic (a notification gets no reply)
+PanicKinds == {"panic", "callbackpanic"}
+Always_C13(o) ==
+  {<<"C13", "panic-not-reported-to-its-caller:" \o o.call[t].outcome, t>> :
+     t \in {t \in Calls(o) : o.call[t].ends >= 1 /\ o.faults = 0 /\ ~(o.call[t].outcome = "herr" /\ o.call[t].detail = "panic")
+                             /\ (o.call[t].kind \in PanicKinds \/ (o.call[t].kind = "sub" /\ o.scName = "c13.panic" /\ t \in {9, 19}))}}
+
+Always(o) == Always_C13(o) \cup Always_Crash(o) \cup Always_C06b(o) \cup Always_C05(o) \cup Always_C05b(o) \cup Always_C02(o) \cup Always_C04(o) \cup Always_C06(o) \cup Always_C07(o) \cup Always_C08(o) \cup Always_C14(o) \cup Always_C18(o)
 
 \* at quiescence q (a Quiesce event): nothing may be outstanding
 Quiet(o, q) ==
